@@ -433,6 +433,9 @@ def patterns(seed, tier):
         "RZ": [("RZ", g)], "RZs": [("RZ", "s")], "X.X": [("X", ""), ("X", "")], "Z.X": [("Z", ""), ("X", "")],
         "RZ.X": [("RZ", g), ("X", "")], "X.Z": [("X", ""), ("Z", "")], "RX": [("RX", h)], "H": [("H", "")],
         "X.H": [("X", ""), ("H", "")],
+        # even multiples of pi: RX(2k pi) is +-identity, NOT a bit flip (only odd multiples are)
+        "RX2pi": [("RX", 2 * PI)], "RX-2pi": [("RX", -2 * PI)], "RZ.RX2pi": [("RZ", g), ("RX", 2 * PI)],
+        "X.RX4pi": [("X", ""), ("RX", 4 * PI)],
     }
     if tier == "thorough":
         pats.update({
